@@ -22,9 +22,9 @@ def run(tier, seed):
     shapes = gen_scope.programs()      # returns from inside every nesting of for / while / block / if
     rnd = shapes + rnd
     progs = [(i, p) for i, p in enumerate(table + rnd)]
-    oracle, res, bad = semrun.run_and_compare(progs)
+    oracle, res, bad = semrun.run_and_compare(progs, also_minimal=True)
     for pid, msg in sorted(bad.items())[:8]:
-        src = bsyntax.render(progs[pid][1])
+        src = bsyntax.render(progs[pid][1], minimal=pid in semrun.MINIMAL_BAD)
         out.violation(msg, {"what": msg, "program": src, "reference": oracle[pid], "interpreter": res[pid],
                             "kind": "operator-table" if pid < len(table) else "generated"}, "prog%d" % pid)
     st = collections.Counter(o["status"] for o in oracle.values())
@@ -43,7 +43,7 @@ def run(tier, seed):
                    "non-trivial if the reference prints something or raises a runtime error; 'undef' references (overflow guard, fuel) are dropped."}
     vlib.write_evidence(PID, tier, seed, "exploration", cov,
                         ["floats are exact rationals in the reference and are compared with the printed value at 1e-5 relative",
-                         "operator precedence is not exercised here (every sub-expression is parenthesised); that is C14",
+                         "each program also runs rendered with only the parentheses the precedence table requires inside operator trees; the parse itself is C14's",
                          "string concatenation operands: int, long, bit, boolean, string; && and || operands have no side effects"],
                         time.time() - t0, len(bad))
     return out.finish()
